@@ -619,13 +619,52 @@ func (d *driver) gotOffer(c *client, m map[string]any) {
 // ------------------------------------------------------------------ HTTP and files
 
 func (d *driver) http(name, method, path string, headers map[string]any, body string, user, pass string) {
+	ev := d.doHTTP(name, method, path, headers, body, user, pass, true)
+	ev["digest"], ev["parts"] = d.stateDigest(), d.parts()
+	d.emit(ev)
+}
+
+// several requests fired at the same moment (racing conditional writers); one event with every status
+func (d *driver) httprace(name string, reqs []any) {
+	res := make([]map[string]any, len(reqs))
+	var wg sync.WaitGroup
+	start := make(chan struct{})
+	for i, r := range reqs {
+		a, _ := r.([]any)
+		if len(a) < 8 {
+			continue
+		}
+		hd, _ := a[4].(map[string]any)
+		wg.Add(1)
+		go func(i int, a []any, hd map[string]any) {
+			defer wg.Done()
+			<-start
+			res[i] = d.doHTTP(str(a[1]), str(a[2]), str(a[3]), hd, str(a[5]), str(a[6]), str(a[7]), false)
+		}(i, a, hd)
+	}
+	close(start)
+	wg.Wait()
+	statuses, leaks, oks := []int{}, []string{}, 0
+	for _, r := range res {
+		if r == nil {
+			continue
+		}
+		st, _ := r["status"].(int)
+		statuses = append(statuses, st)
+		if st >= 200 && st < 300 {
+			oks++
+		}
+		if l, ok := r["leaks"].([]string); ok {
+			leaks = append(leaks, l...)
+		}
+	}
+	d.emit(map[string]any{"ev": "httprace", "name": name, "statuses": statuses, "oks": oks, "leaks": leaks, "digest": d.stateDigest(), "parts": d.parts()})
+}
+
+func (d *driver) doHTTP(name, method, path string, headers map[string]any, body string, user, pass string, capture bool) map[string]any {
 	req, err := http.NewRequest(method, fmt.Sprintf("http://127.0.0.1:%d%s", d.srv.port, path), strings.NewReader(body))
 	if err != nil {
-		d.emit(map[string]any{"ev": "http", "name": name, "status": -2, "etag": "", "body": err.Error(), "leaks": []string{}, "ctype": "", "allow": "", "members": [][]string{}})
-		return
-	}
-	if d.etags == nil {
-		d.etags = map[string]string{}
+		return map[string]any{"ev": "http", "name": name, "method": method, "path": path, "status": -2, "etag": "", "body": err.Error(), "leaks": []string{}, "ctype": "", "allow": "", "members": [][]string{}}
 	}
 	for k, v := range headers {
 		val := str(v)
@@ -633,6 +672,9 @@ func (d *driver) http(name, method, path string, headers map[string]any, body st
 		for _, form := range []string{"$etag:", "$weak:", "$list:", "$listnot:"} {
 			if strings.HasPrefix(val, form) {
 				t := d.etags[val[len(form):]]
+				if t == "" {
+					t = "\"no-such-tag\""
+				}
 				switch form {
 				case "$etag:":
 					val = t
@@ -654,8 +696,7 @@ func (d *driver) http(name, method, path string, headers map[string]any, body st
 	resp, err := cl.Do(req)
 	if err != nil {
 		// no HTTP response at all (a handler panic closes the connection)
-		d.emit(map[string]any{"ev": "http", "name": name, "method": method, "path": path, "status": -1, "etag": "", "body": err.Error(), "leaks": []string{}, "ctype": "", "allow": "", "members": [][]string{}, "digest": d.stateDigest(), "parts": d.parts()})
-		return
+		return map[string]any{"ev": "http", "name": name, "method": method, "path": path, "status": -1, "etag": "", "body": err.Error(), "leaks": []string{}, "ctype": "", "allow": "", "members": [][]string{}}
 	}
 	defer resp.Body.Close()
 	b, _ := io.ReadAll(io.LimitReader(resp.Body, 1<<20))
@@ -673,7 +714,7 @@ func (d *driver) http(name, method, path string, headers map[string]any, body st
 	if len(bs) > 400 {
 		bs = bs[:400]
 	}
-	if et := resp.Header.Get("ETag"); et != "" {
+	if et := resp.Header.Get("ETag"); et != "" && capture {
 		d.etags[name] = et
 	}
 	members := [][]string{}
@@ -692,9 +733,9 @@ func (d *driver) http(name, method, path string, headers map[string]any, body st
 			}
 		}
 	}
-	d.emit(map[string]any{"ev": "http", "name": name, "method": method, "path": path, "status": resp.StatusCode, "etag": resp.Header.Get("ETag"), "members": members,
+	return map[string]any{"ev": "http", "name": name, "method": method, "path": path, "status": resp.StatusCode, "etag": resp.Header.Get("ETag"), "members": members,
 		"body": bs, "leaks": leaks, "ctype": resp.Header.Get("Content-Type"), "allow": resp.Header.Get("Allow"),
-		"location": resp.Header.Get("Location"), "digest": d.stateDigest(), "parts": d.parts()})
+		"location": resp.Header.Get("Location")}
 }
 
 // digest of everything the administrative API may change
@@ -726,6 +767,9 @@ func (d *driver) parts() [][]string {
 			continue
 		}
 		out = append(out, []string{g + ":parses", "yes"})
+		if fi, err := os.Stat(filepath.Join(dir, f)); err == nil {
+			out = append(out, []string{g + ":stat", fmt.Sprintf("%d-%d", fi.Size(), fi.ModTime().UnixNano())})
+		}
 		if us, ok := m["users"].(map[string]any); ok {
 			for name, u := range us {
 				um, _ := u.(map[string]any)
@@ -951,6 +995,9 @@ func (d *driver) runBeh(b beh, idx int) {
 			}
 		case "settle":
 			d.settle()
+		case "httprace":
+			rs, _ := st[2].([]any)
+			d.httprace(str(st[1]), rs)
 		case "http":
 			h, _ := st[4].(map[string]any)
 			d.http(str(st[1]), str(st[2]), str(st[3]), h, str(st[5]), str(st[6]), str(st[7]))
